@@ -28,6 +28,8 @@ type Q struct {
 	O     int    `json:"o"`     // abstract object id or 0
 	Lo    int    `json:"lo"`    // instant rank or 0
 	Hi    int    `json:"hi"`
+	LoD   int    `json:"lod"` // nanoseconds added to the lower / upper bound (bounds that differ below one second)
+	HiD   int    `json:"hid"`
 	Fop   string `json:"fop"` // "", latest, isTemporal, isImmutable, bogus
 	Ff    string `json:"ff"`  // predicate, object, subject
 	La    bool   `json:"la"`
@@ -61,11 +63,11 @@ var Methods = []Method{
 func Options(u *uni.Universe, q *Q) *storage.LookupOptions {
 	lo := &storage.LookupOptions{MaxElements: q.Max, Offset: q.Off, LatestAnchor: q.La}
 	if q.Lo > 0 {
-		t := u.Time(q.Lo)
+		t := u.Time(q.Lo).Add(time.Duration(q.LoD))
 		lo.LowerAnchor = &t
 	}
 	if q.Hi > 0 {
-		t := u.Time(q.Hi)
+		t := u.Time(q.Hi).Add(time.Duration(q.HiD))
 		lo.UpperAnchor = &t
 	}
 	if q.Fop != "" {
